@@ -341,20 +341,20 @@ impl<'a> TryFrom<&'a [u8]> for HeaderName {
 
 // ---------------------------------------------------------------------------------------
 
-#[derive(Clone, Debug)]
-enum Repr {
-    Static(&'static [u8]),
-    Owned(Vec<u8>),
-    /// MODEL-ONLY: short values kept inline (stack), for harnesses with symbolic bytes.
-    Inline([u8; INLINE_CAP], u8),
+/// A header value: any bytes except CTLs other than HTAB.
+///
+/// MODEL: the bytes are always a `&'static [u8]` (owned buffers are leaked). The type then has
+/// no drop glue, which matters under the model checker: dropping or moving a map of values
+/// would otherwise be a loop over all of its slots.
+#[derive(Clone, Copy, Debug)]
+pub struct HeaderValue {
+    bytes: &'static [u8],
+    sensitive: bool,
 }
 pub const INLINE_CAP: usize = 24;
 
-/// A header value: any bytes except CTLs other than HTAB.
-#[derive(Clone, Debug)]
-pub struct HeaderValue {
-    repr: Repr,
-    sensitive: bool,
+fn leak(v: Vec<u8>) -> &'static [u8] {
+    v.leak()
 }
 
 fn is_valid_value_byte(b: u8) -> bool {
@@ -369,7 +369,7 @@ impl HeaderValue {
     pub fn from_static(src: &'static str) -> HeaderValue {
         let b = src.as_bytes();
         assert!(all_bytes(b, is_visible_ascii), "invalid header value");
-        HeaderValue { repr: Repr::Static(b), sensitive: false }
+        HeaderValue { bytes: b, sensitive: false }
     }
 
     pub fn from_str(src: &str) -> Result<HeaderValue, InvalidHeaderValue> {
@@ -377,14 +377,14 @@ impl HeaderValue {
         if !all_bytes(b, is_visible_ascii) {
             return Err(InvalidHeaderValue { _p: () });
         }
-        Ok(HeaderValue { repr: Repr::Owned(b.to_vec()), sensitive: false })
+        Ok(HeaderValue { bytes: leak(b.to_vec()), sensitive: false })
     }
 
     pub fn from_bytes(src: &[u8]) -> Result<HeaderValue, InvalidHeaderValue> {
         if !all_bytes(src, is_valid_value_byte) {
             return Err(InvalidHeaderValue { _p: () });
         }
-        Ok(HeaderValue { repr: Repr::Owned(src.to_vec()), sensitive: false })
+        Ok(HeaderValue { bytes: leak(src.to_vec()), sensitive: false })
     }
 
     pub fn from_maybe_shared<T: AsRef<[u8]> + 'static>(src: T) -> Result<HeaderValue, InvalidHeaderValue> {
@@ -394,43 +394,30 @@ impl HeaderValue {
     /// # Safety
     /// Caller promises the bytes are valid (as in the real crate).
     pub unsafe fn from_maybe_shared_unchecked<T: AsRef<[u8]> + 'static>(src: T) -> HeaderValue {
-        HeaderValue { repr: Repr::Owned(src.as_ref().to_vec()), sensitive: false }
+        HeaderValue { bytes: leak(src.as_ref().to_vec()), sensitive: false }
     }
 
     /// MODEL-ONLY constructor used by harnesses: takes ownership of a byte vector without a scan.
     pub fn model_from_vec(v: Vec<u8>) -> HeaderValue {
-        HeaderValue { repr: Repr::Owned(v), sensitive: false }
+        HeaderValue { bytes: leak(v), sensitive: false }
     }
     /// MODEL-ONLY constructor used by harnesses: static bytes (may be non-ASCII) without a scan.
     pub fn model_from_static_bytes(v: &'static [u8]) -> HeaderValue {
-        HeaderValue { repr: Repr::Static(v), sensitive: false }
+        HeaderValue { bytes: v, sensitive: false }
     }
 
-    /// MODEL-ONLY constructor used by harnesses: up to INLINE_CAP bytes, no heap.
+    /// MODEL-ONLY constructor used by harnesses for values of symbolic length: the buffer is
+    /// allocated with the constant capacity INLINE_CAP (an allocation of symbolic size is what the
+    /// model checker cannot afford), then filled.
     pub fn model_from_inline(b: &[u8]) -> HeaderValue {
         assert!(b.len() <= INLINE_CAP);
-        let mut buf = [0u8; INLINE_CAP];
-        let mut o = 0;
-        while o < INLINE_CAP / 8 {
-            let mut i = 0;
-            while i < 8 {
-                let k = o * 8 + i;
-                if k < b.len() {
-                    buf[k] = b[k];
-                }
-                i += 1;
-            }
-            o += 1;
-        }
-        HeaderValue { repr: Repr::Inline(buf, b.len() as u8), sensitive: false }
+        let mut v = Vec::with_capacity(INLINE_CAP);
+        v.extend_from_slice(b);
+        HeaderValue { bytes: leak(v), sensitive: false }
     }
 
     pub fn as_bytes(&self) -> &[u8] {
-        match &self.repr {
-            Repr::Static(s) => s,
-            Repr::Owned(v) => &v[..],
-            Repr::Inline(b, n) => &b[..*n as usize],
-        }
+        self.bytes
     }
 
     pub fn to_str(&self) -> Result<&str, ToStrError> {
@@ -524,7 +511,7 @@ impl<'a> From<&'a HeaderValue> for HeaderValue {
 }
 impl From<HeaderName> for HeaderValue {
     fn from(n: HeaderName) -> HeaderValue {
-        HeaderValue { repr: Repr::Static(n.s.as_bytes()), sensitive: false }
+        HeaderValue { bytes: n.s.as_bytes(), sensitive: false }
     }
 }
 impl<'a> TryFrom<&'a str> for HeaderValue {
@@ -552,7 +539,7 @@ impl TryFrom<String> for HeaderValue {
         if !all_bytes(&v[..], is_valid_value_byte) {
             return Err(InvalidHeaderValue { _p: () });
         }
-        Ok(HeaderValue { repr: Repr::Owned(v), sensitive: false })
+        Ok(HeaderValue { bytes: leak(v), sensitive: false })
     }
 }
 impl TryFrom<Vec<u8>> for HeaderValue {
@@ -561,14 +548,14 @@ impl TryFrom<Vec<u8>> for HeaderValue {
         if !all_bytes(&v[..], is_valid_value_byte) {
             return Err(InvalidHeaderValue { _p: () });
         }
-        Ok(HeaderValue { repr: Repr::Owned(v), sensitive: false })
+        Ok(HeaderValue { bytes: leak(v), sensitive: false })
     }
 }
 macro_rules! from_int {
     ($($t:ty)*) => {$(
         impl From<$t> for HeaderValue {
             fn from(n: $t) -> HeaderValue {
-                HeaderValue { repr: Repr::Owned(n.to_string().into_bytes()), sensitive: false }
+                HeaderValue { bytes: leak(n.to_string().into_bytes()), sensitive: false }
             }
         }
     )*}
@@ -582,31 +569,32 @@ pub trait AsHeaderName: sealed::Sealed {}
 mod sealed {
     use super::HeaderName;
     pub trait Sealed {
-        fn matches(&self, n: &HeaderName) -> bool;
+        /// slot of this name, or None if the name is not (and therefore cannot be) in any map
+        fn slot(&self) -> Option<usize>;
     }
     impl Sealed for HeaderName {
-        fn matches(&self, n: &HeaderName) -> bool {
-            self == n
+        fn slot(&self) -> Option<usize> {
+            Some(super::slot_of(self.model_idx()))
         }
     }
     impl<'a> Sealed for &'a HeaderName {
-        fn matches(&self, n: &HeaderName) -> bool {
-            *self == n
+        fn slot(&self) -> Option<usize> {
+            Some(super::slot_of(self.model_idx()))
         }
     }
     impl<'a> Sealed for &'a str {
-        fn matches(&self, n: &HeaderName) -> bool {
-            n.as_str().eq_ignore_ascii_case(self)
+        fn slot(&self) -> Option<usize> {
+            super::slot_of_str(self)
         }
     }
     impl Sealed for String {
-        fn matches(&self, n: &HeaderName) -> bool {
-            n.as_str().eq_ignore_ascii_case(self)
+        fn slot(&self) -> Option<usize> {
+            super::slot_of_str(self)
         }
     }
     impl<'a> Sealed for &'a String {
-        fn matches(&self, n: &HeaderName) -> bool {
-            n.as_str().eq_ignore_ascii_case(self)
+        fn slot(&self) -> Option<usize> {
+            super::slot_of_str(self)
         }
     }
 }
@@ -643,178 +631,201 @@ impl IntoHeaderName for HeaderName {}
 impl<'a> IntoHeaderName for &'a HeaderName {}
 impl IntoHeaderName for &'static str {}
 
-/// Insertion-ordered multimap. Values of one name are kept adjacent (as the real map iterates).
-///
-/// Storage is an INLINE fixed-capacity array (no heap): bounded model checkers propagate
-/// constants through stack objects but not through heap objects, and header lookups on
-/// concrete request texts must stay concrete. Exceeding `MODEL_CAP` entries panics with a
-/// message that names the model (the real map holds 32768).
-pub const MODEL_CAP: usize = 8;
+/// Number of slots: one per standard name plus the interned custom names.
+pub const N_STD: usize = 45;
+pub const NSLOT: usize = N_STD + INTERN_CAP;
+/// Additional values of names that already have one (multi-valued headers).
+pub const NMORE: usize = 4;
 
-#[derive(Clone, Debug)]
+fn slot_of(idx: u16) -> usize {
+    if idx >= CUSTOM_BASE {
+        N_STD + (idx - CUSTOM_BASE) as usize
+    } else {
+        idx as usize
+    }
+}
+fn slot_of_str(s: &str) -> Option<usize> {
+    // lookups by string are case-insensitive in the real crate; the model lower-cases
+    let b = s.as_bytes();
+    assert!(b.len() <= MODEL_MAX_STR);
+    let mut low = [0u8; MODEL_MAX_STR];
+    let mut i = 0;
+    while i < b.len() {
+        low[i] = b[i].to_ascii_lowercase();
+        i += 1;
+    }
+    let idx = lookup(&low[..b.len()]);
+    if idx != CUSTOM {
+        return Some(idx as usize);
+    }
+    unsafe {
+        let mut k = 0;
+        while k < INTERN_CAP {
+            if k < N_INTERNED && bytes_eq(INTERNED[k].as_bytes(), &low[..b.len()]) {
+                return Some(N_STD + k);
+            }
+            k += 1;
+        }
+    }
+    None
+}
+#[allow(static_mut_refs)]
+fn name_of_slot(slot: usize) -> HeaderName {
+    if slot < N_STD {
+        HeaderName { idx: slot as u16, s: STANDARD[slot].0 }
+    } else {
+        unsafe { HeaderName { idx: CUSTOM_BASE + (slot - N_STD) as u16, s: INTERNED[slot - N_STD] } }
+    }
+}
+
+/// Multimap keyed by header name, iteration in order of first insertion of each name, the
+/// values of one name adjacent (as the real map iterates).
+///
+/// Storage: one slot per name (the name's index is the array index, so a lookup or an
+/// insertion with a constant name touches a constant array position and needs no scan --
+/// bounded model checkers propagate constants through such accesses but not through
+/// searches over symbolic contents), `order` remembers the order of first insertion, `more`
+/// holds second and further values. No heap. More than NMORE repeated values or more than
+/// INTERN_CAP custom names trip a model-capacity assertion (the real map holds 32768).
+#[derive(Debug)]
 pub struct HeaderMap<T = HeaderValue> {
-    entries: [Option<(HeaderName, T)>; MODEL_CAP],
-    len: usize,
+    first: [Option<T>; NSLOT],
+    order: [u8; NSLOT],
+    norder: usize,
+    more: [Option<(u8, T)>; NMORE],
+    nmore: usize,
+    names: [Option<HeaderName>; NSLOT],
 }
 
 impl HeaderMap<HeaderValue> {
     pub fn new() -> Self {
-        HeaderMap { entries: [const { None }; MODEL_CAP], len: 0 }
+        HeaderMap::default()
     }
 }
 
 impl<T> Default for HeaderMap<T> {
     fn default() -> Self {
-        HeaderMap { entries: [const { None }; MODEL_CAP], len: 0 }
+        HeaderMap {
+            first: [const { None }; NSLOT],
+            order: [0; NSLOT],
+            norder: 0,
+            more: [const { None }; NMORE],
+            nmore: 0,
+            names: [const { None }; NSLOT],
+        }
+    }
+}
+
+impl<T: Clone> Clone for HeaderMap<T> {
+    fn clone(&self) -> Self {
+        let mut m = HeaderMap::default();
+        for (k, v) in self.iter() {
+            m.append(k.clone(), v.clone());
+        }
+        m
     }
 }
 
 impl<T> HeaderMap<T> {
     pub fn with_capacity(_n: usize) -> Self {
-        HeaderMap { entries: [const { None }; MODEL_CAP], len: 0 }
+        HeaderMap::default()
     }
     pub fn len(&self) -> usize {
-        self.len
-    }
-    fn name_at(&self, i: usize) -> &HeaderName {
-        match &self.entries[i] {
-            Some((k, _)) => k,
-            None => unreachable!(),
-        }
-    }
-    fn val_at(&self, i: usize) -> &T {
-        match &self.entries[i] {
-            Some((_, v)) => v,
-            None => unreachable!(),
-        }
+        self.norder + self.nmore
     }
     pub fn keys_len(&self) -> usize {
-        let mut n = 0;
-        let mut i = 0;
-        while i < MODEL_CAP {
-            if i < self.len && (i == 0 || self.name_at(i - 1) != self.name_at(i)) {
-                n += 1;
-            }
-            i += 1;
-        }
-        n
+        self.norder
     }
     pub fn is_empty(&self) -> bool {
-        self.len == 0
+        self.norder == 0
     }
     pub fn clear(&mut self) {
-        let mut i = 0;
-        while i < MODEL_CAP {
-            self.entries[i] = None;
-            i += 1;
-        }
-        self.len = 0;
+        *self = HeaderMap::default();
     }
     pub fn capacity(&self) -> usize {
-        MODEL_CAP
+        NSLOT + NMORE
     }
     pub fn reserve(&mut self, _n: usize) {}
 
-    fn find<K: AsHeaderName>(&self, key: &K) -> Option<usize> {
-        let mut i = 0;
-        while i < MODEL_CAP {
-            if i < self.len {
-                if let Some((k, _)) = &self.entries[i] {
-                    if sealed::Sealed::matches(key, k) {
-                        return Some(i);
-                    }
-                }
-            }
-            i += 1;
-        }
-        None
-    }
-
     pub fn get<K: AsHeaderName>(&self, key: K) -> Option<&T> {
-        match self.find(&key) {
-            Some(i) => Some(self.val_at(i)),
+        match sealed::Sealed::slot(&key) {
+            Some(s) => self.first[s].as_ref(),
             None => None,
         }
     }
     pub fn get_mut<K: AsHeaderName>(&mut self, key: K) -> Option<&mut T> {
-        match self.find(&key) {
-            Some(i) => match &mut self.entries[i] {
-                Some((_, v)) => Some(v),
-                None => None,
-            },
+        match sealed::Sealed::slot(&key) {
+            Some(s) => self.first[s].as_mut(),
             None => None,
         }
     }
     pub fn contains_key<K: AsHeaderName>(&self, key: K) -> bool {
-        self.find(&key).is_some()
+        self.get(key).is_some()
     }
     pub fn get_all<K: AsHeaderName>(&self, key: K) -> GetAll<'_, T> {
-        let start = self.find(&key);
-        GetAll { map: self, start }
+        GetAll { map: self, slot: sealed::Sealed::slot(&key) }
+    }
+    /// MODEL-ONLY: how many values the name has.
+    pub fn model_count<K: AsHeaderName>(&self, key: K) -> usize {
+        match sealed::Sealed::slot(&key) {
+            None => 0,
+            Some(s) => {
+                if self.first[s].is_none() {
+                    return 0;
+                }
+                let mut n = 1;
+                let mut i = 0;
+                while i < NMORE {
+                    if let Some((sl, _)) = &self.more[i] {
+                        if *sl as usize == s {
+                            n += 1;
+                        }
+                    }
+                    i += 1;
+                }
+                n
+            }
+        }
     }
 
-    /// Inserts at position `at`, shifting later entries.
-    fn insert_at(&mut self, at: usize, e: (HeaderName, T)) {
-        assert!(self.len < MODEL_CAP, "http model: HeaderMap holds at most MODEL_CAP entries");
-        let mut i = MODEL_CAP - 1;
-        while i > 0 {
-            if i > at && i <= self.len {
-                self.entries[i] = self.entries[i - 1].take();
-            }
-            i -= 1;
-        }
-        self.entries[at] = Some(e);
-        self.len += 1;
-    }
-    fn remove_at(&mut self, at: usize) -> (HeaderName, T) {
-        let e = self.entries[at].take().unwrap();
+    fn drop_more(&mut self, slot: usize) {
+        // remove every additional value of `slot`, keeping the others in order
+        let mut w = 0;
         let mut i = 0;
-        while i + 1 < MODEL_CAP {
-            if i >= at && i + 1 < self.len {
-                self.entries[i] = self.entries[i + 1].take();
+        while i < NMORE {
+            let keep = match &self.more[i] {
+                Some((sl, _)) => *sl as usize != slot,
+                None => false,
+            };
+            if keep {
+                if w != i {
+                    self.more[w] = self.more[i].take();
+                }
+                w += 1;
+            } else {
+                self.more[i] = None;
             }
             i += 1;
         }
-        self.len -= 1;
-        e
-    }
-    /// one past the last value of the name whose first value is at `i`
-    fn group_end(&self, i: usize) -> usize {
-        let mut j = i + 1;
-        let mut k = 0;
-        while k < MODEL_CAP {
-            if j < self.len && self.name_at(j) == self.name_at(i) {
-                j += 1;
-            }
-            k += 1;
-        }
-        j
+        self.nmore = w;
     }
 
     /// Replaces all values of the name; returns the first previous value.
     pub fn insert<K: IntoHeaderName>(&mut self, key: K, val: T) -> Option<T> {
         let name = into_sealed::Sealed::into_name(key);
-        match self.find(&&name) {
+        let s = slot_of(name.idx);
+        match self.first[s].take() {
             None => {
-                let at = self.len;
-                self.insert_at(at, (name, val));
+                self.first[s] = Some(val);
+                self.names[s] = Some(name);
+                self.order[self.norder] = s as u8;
+                self.norder += 1;
                 None
             }
-            Some(i) => {
-                let end = self.group_end(i);
-                let mut extra = end - (i + 1);
-                let mut g = 0;
-                while g < MODEL_CAP {
-                    if extra > 0 {
-                        let _ = self.remove_at(i + 1);
-                        extra -= 1;
-                    }
-                    g += 1;
-                }
-                match &mut self.entries[i] {
-                    Some((_, v)) => Some(std::mem::replace(v, val)),
-                    None => None,
-                }
+            Some(old) => {
+                self.first[s] = Some(val);
+                self.drop_more(s);
+                Some(old)
             }
         }
     }
@@ -822,125 +833,128 @@ impl<T> HeaderMap<T> {
     /// Adds a value; returns true if the name was already present.
     pub fn append<K: IntoHeaderName>(&mut self, key: K, val: T) -> bool {
         let name = into_sealed::Sealed::into_name(key);
-        match self.find(&&name) {
-            None => {
-                let at = self.len;
-                self.insert_at(at, (name, val));
-                false
-            }
-            Some(i) => {
-                let j = self.group_end(i);
-                self.insert_at(j, (name, val));
-                true
-            }
+        let s = slot_of(name.idx);
+        if self.first[s].is_none() {
+            self.first[s] = Some(val);
+            self.names[s] = Some(name);
+            self.order[self.norder] = s as u8;
+            self.norder += 1;
+            false
+        } else {
+            assert!(self.nmore < NMORE, "http model: more than NMORE repeated header values");
+            self.more[self.nmore] = Some((s as u8, val));
+            self.nmore += 1;
+            true
         }
     }
 
     pub fn remove<K: AsHeaderName>(&mut self, key: K) -> Option<T> {
-        match self.find(&key) {
-            None => None,
-            Some(i) => {
-                let end = self.group_end(i);
-                let mut extra = end - (i + 1);
-                let mut g = 0;
-                while g < MODEL_CAP {
-                    if extra > 0 {
-                        let _ = self.remove_at(i + 1);
-                        extra -= 1;
-                    }
-                    g += 1;
-                }
-                let (_, first) = self.remove_at(i);
-                Some(first)
+        let s = sealed::Sealed::slot(&key)?;
+        let old = self.first[s].take()?;
+        self.names[s] = None;
+        self.drop_more(s);
+        // remove from order
+        let mut w = 0;
+        let mut i = 0;
+        while i < NSLOT {
+            if i < self.norder && self.order[i] as usize != s {
+                self.order[w] = self.order[i];
+                w += 1;
             }
+            i += 1;
         }
+        self.norder = w;
+        Some(old)
     }
 
     pub fn iter(&self) -> Iter<'_, T> {
-        Iter { map: self, i: 0 }
-    }
-    /// MODEL-ONLY: direct access to slot `i` (harnesses snapshot a map in one pass).
-    pub fn model_slot(&self, i: usize) -> Option<(&HeaderName, &T)> {
-        if i < self.len {
-            match &self.entries[i] {
-                Some((k, v)) => Some((k, v)),
-                None => None,
-            }
-        } else {
-            None
-        }
+        Iter { map: self, oi: 0, mi: NMORE + 1 }
     }
     pub fn keys(&self) -> Keys<'_, T> {
-        Keys { map: self, i: 0 }
+        Keys { map: self, oi: 0 }
     }
     pub fn values(&self) -> Values<'_, T> {
-        Values { map: self, i: 0 }
+        Values { inner: self.iter() }
     }
 }
 
+/// Iterates (name, value): for each name in order of first insertion, its first value and then
+/// its additional values.
 pub struct Iter<'a, T> {
     map: &'a HeaderMap<T>,
-    i: usize,
+    oi: usize,
+    /// NMORE + 1: next item is the first value of order[oi]; otherwise index into `more` to scan from
+    mi: usize,
 }
 impl<'a, T> Iterator for Iter<'a, T> {
     type Item = (&'a HeaderName, &'a T);
     fn next(&mut self) -> Option<Self::Item> {
-        if self.i < self.map.len {
-            let i = self.i;
-            self.i += 1;
-            match &self.map.entries[i] {
-                Some((k, v)) => Some((k, v)),
-                None => None,
+        let mut guard = 0;
+        while guard < NSLOT + NMORE + 2 {
+            guard += 1;
+            if self.oi >= self.map.norder {
+                return None;
             }
-        } else {
-            None
+            let s = self.map.order[self.oi] as usize;
+            let name = match &self.map.names[s] {
+                Some(n) => n,
+                None => return None,
+            };
+            if self.mi == NMORE + 1 {
+                self.mi = 0;
+                if let Some(v) = &self.map.first[s] {
+                    return Some((name, v));
+                }
+            }
+            while self.mi < NMORE {
+                let i = self.mi;
+                self.mi += 1;
+                if let Some((sl, v)) = &self.map.more[i] {
+                    if *sl as usize == s {
+                        return Some((name, v));
+                    }
+                }
+            }
+            self.oi += 1;
+            self.mi = NMORE + 1;
         }
+        None
     }
     fn size_hint(&self) -> (usize, Option<usize>) {
-        let n = self.map.len - self.i;
-        (n, Some(n))
+        (0, Some(self.map.len()))
     }
 }
 pub struct Values<'a, T> {
-    map: &'a HeaderMap<T>,
-    i: usize,
+    inner: Iter<'a, T>,
 }
 impl<'a, T> Iterator for Values<'a, T> {
     type Item = &'a T;
     fn next(&mut self) -> Option<Self::Item> {
-        if self.i < self.map.len {
-            let i = self.i;
-            self.i += 1;
-            Some(self.map.val_at(i))
-        } else {
-            None
-        }
+        self.inner.next().map(|(_, v)| v)
     }
 }
 pub struct Keys<'a, T> {
     map: &'a HeaderMap<T>,
-    i: usize,
+    oi: usize,
 }
 impl<'a, T> Iterator for Keys<'a, T> {
     type Item = &'a HeaderName;
     fn next(&mut self) -> Option<Self::Item> {
-        while self.i < self.map.len {
-            let i = self.i;
-            self.i += 1;
-            if i == 0 || self.map.name_at(i - 1) != self.map.name_at(i) {
-                return Some(self.map.name_at(i));
-            }
+        if self.oi >= self.map.norder {
+            return None;
         }
-        None
+        let s = self.map.order[self.oi] as usize;
+        self.oi += 1;
+        self.map.names[s].as_ref()
     }
 }
 pub struct GetAll<'a, T> {
     map: &'a HeaderMap<T>,
-    start: Option<usize>,
+    slot: Option<usize>,
 }
 impl<'a, T> GetAll<'a, T> {
     pub fn iter(&self) -> ValueIter<'a, T> {
-        ValueIter { map: self.map, name_at: self.start, i: self.start.unwrap_or(0) }
+        ValueIter { map: self.map, slot: self.slot, first_done: false, mi: 0 }
     }
 }
 impl<'a, T> IntoIterator for GetAll<'a, T> {
@@ -959,20 +973,31 @@ impl<'a, 'b: 'a, T> IntoIterator for &'b GetAll<'a, T> {
 }
 pub struct ValueIter<'a, T> {
     map: &'a HeaderMap<T>,
-    name_at: Option<usize>,
-    i: usize,
+    slot: Option<usize>,
+    first_done: bool,
+    mi: usize,
 }
 impl<'a, T> Iterator for ValueIter<'a, T> {
     type Item = &'a T;
     fn next(&mut self) -> Option<&'a T> {
-        let first = self.name_at?;
-        if self.i < self.map.len && self.map.name_at(self.i) == self.map.name_at(first) {
-            let v = self.map.val_at(self.i);
-            self.i += 1;
-            Some(v)
-        } else {
-            None
+        let s = self.slot?;
+        if !self.first_done {
+            self.first_done = true;
+            return self.map.first[s].as_ref();
         }
+        if self.map.first[s].is_none() {
+            return None;
+        }
+        while self.mi < NMORE {
+            let i = self.mi;
+            self.mi += 1;
+            if let Some((sl, v)) = &self.map.more[i] {
+                if *sl as usize == s {
+                    return Some(v);
+                }
+            }
+        }
+        None
     }
 }
 
@@ -987,39 +1012,48 @@ impl<'a, T> IntoIterator for &'a HeaderMap<T> {
 /// Owning iterator: like the real one, yields `Some(name)` only for the first value of a name.
 pub struct IntoIter<T> {
     map: HeaderMap<T>,
-    i: usize,
-    last: Option<HeaderName>,
+    oi: usize,
+    mi: usize,
 }
 impl<T> Iterator for IntoIter<T> {
     type Item = (Option<HeaderName>, T);
     fn next(&mut self) -> Option<Self::Item> {
-        if self.i >= self.map.len {
-            return None;
-        }
-        let i = self.i;
-        self.i += 1;
-        match self.map.entries[i].take() {
-            None => None,
-            Some((k, v)) => {
-                let same = match &self.last {
-                    Some(l) => *l == k,
-                    None => false,
-                };
-                if same {
-                    Some((None, v))
-                } else {
-                    self.last = Some(k.clone());
-                    Some((Some(k), v))
+        let mut guard = 0;
+        while guard < NSLOT + NMORE + 2 {
+            guard += 1;
+            if self.oi >= self.map.norder {
+                return None;
+            }
+            let s = self.map.order[self.oi] as usize;
+            if self.mi == NMORE + 1 {
+                self.mi = 0;
+                if let Some(v) = self.map.first[s].take() {
+                    return Some((self.map.names[s].clone(), v));
                 }
             }
+            while self.mi < NMORE {
+                let i = self.mi;
+                self.mi += 1;
+                let hit = match &self.map.more[i] {
+                    Some((sl, _)) => *sl as usize == s,
+                    None => false,
+                };
+                if hit {
+                    let (_, v) = self.map.more[i].take().unwrap();
+                    return Some((None, v));
+                }
+            }
+            self.oi += 1;
+            self.mi = NMORE + 1;
         }
+        None
     }
 }
 impl<T> IntoIterator for HeaderMap<T> {
     type Item = (Option<HeaderName>, T);
     type IntoIter = IntoIter<T>;
     fn into_iter(self) -> IntoIter<T> {
-        IntoIter { map: self, i: 0, last: None }
+        IntoIter { map: self, oi: 0, mi: NMORE + 1 }
     }
 }
 
@@ -1031,7 +1065,7 @@ impl<T> Extend<(HeaderName, T)> for HeaderMap<T> {
         }
     }
 }
-/// `extend` with (Option<name>, value): `None` appends to the previous name (as the real crate).
+/// `extend` with (Option<name>, value): `Some` replaces, `None` appends to the previous name.
 impl<T> Extend<(Option<HeaderName>, T)> for HeaderMap<T> {
     fn extend<I: IntoIterator<Item = (Option<HeaderName>, T)>>(&mut self, iter: I) {
         let mut cur: Option<HeaderName> = None;
@@ -1042,7 +1076,7 @@ impl<T> Extend<(Option<HeaderName>, T)> for HeaderMap<T> {
                     cur = Some(k);
                 }
                 None => {
-                    let k = cur.clone().expect("expected a header name");
+                    let k = cur.clone().expect("expected a header name, but got None");
                     self.append(k, v);
                 }
             }
@@ -1058,21 +1092,32 @@ impl<T> std::iter::FromIterator<(HeaderName, T)> for HeaderMap<T> {
 }
 impl<T: PartialEq> PartialEq for HeaderMap<T> {
     fn eq(&self, o: &HeaderMap<T>) -> bool {
-        if self.len != o.len {
+        if self.len() != o.len() || self.norder != o.norder {
             return false;
         }
-        // same values per name, order of values within a name matters
-        let mut i = 0;
-        while i < self.len {
-            let name = self.name_at(i);
-            let a: Vec<&T> = self.iter().filter(|e| e.0 == name).map(|e| e.1).collect();
-            let b: Vec<&T> = o.iter().filter(|e| e.0 == name).map(|e| e.1).collect();
+        let mut s = 0;
+        while s < NSLOT {
+            let a: Vec<&T> = self.get_all(name_of_slot_checked(self, s)).iter().collect();
+            let b: Vec<&T> = o.get_all(name_of_slot_checked(self, s)).iter().collect();
             if a != b {
                 return false;
             }
-            i += 1;
+            s += 1;
         }
         true
+    }
+}
+fn name_of_slot_checked<T>(m: &HeaderMap<T>, s: usize) -> HeaderName {
+    match &m.names[s] {
+        Some(n) => n.clone(),
+        None => {
+            if s < N_STD {
+                name_of_slot(s)
+            } else {
+                // an unused custom slot: any name that is in neither map
+                HeaderName { idx: CUSTOM_BASE + (s - N_STD) as u16, s: "" }
+            }
+        }
     }
 }
 impl<K: AsHeaderName, T> std::ops::Index<K> for HeaderMap<T> {
